@@ -8,6 +8,18 @@ set -u
 PID=$1; DIR=$(cd "$2" && pwd); TIER=${3:-quick}
 EV=/tmp/verif-eval; RW=/tmp/repo-eval-$$
 HEAD=$(git -C /verif rev-parse HEAD)
+if [ "${SEED_EVAL_DIRECT:-0}" = "1" ]; then
+  # evaluate from /verif itself (no builders running): faster, caches are warm
+  git -C /repo worktree add --detach $RW HEAD >/dev/null 2>&1
+  if ! git -C $RW apply "$DIR/patch.diff"; then echo "PATCH DOES NOT APPLY"; git -C /repo worktree remove --force $RW; exit 3; fi
+  cd /verif
+  VV_REPO=$RW ./check $PID $TIER 2>/verif/.build/last-seed-stderr
+  RC=$?
+  echo "exit=$RC"
+  git -C /repo worktree remove --force $RW
+  git -C /verif checkout -q -- evidence/$PID.json coq/Gen 2>/dev/null
+  exit $RC
+fi
 if [ ! -d $EV ]; then git -C /verif worktree add --detach $EV $HEAD >/dev/null 2>&1; fi
 git -C $EV clean -fdq evidence >/dev/null 2>&1; git -C $EV checkout -q -f --detach $HEAD || { echo "EVAL WORKTREE CHECKOUT FAILED"; exit 4; }
 git -C /repo worktree add --detach $RW HEAD >/dev/null 2>&1
